@@ -165,6 +165,11 @@ def judge(kind: str, payload: bytes):
 
     if ref[0] is rc.MALFORMED:
         return ("unspecified", probs)
+    if "c0" in k and lib[0] != "ok" and (rc.read_c0_subheader(payload) or {}).get("normal"):
+        # a non-empty "normal data" section in front of the records: the generic 0xC0 layout gives it a reading (the
+        # records follow it) but no documented status message has one - a decoder may refuse it; if it accepts the
+        # payload, the records must be read from behind that section (judged below)
+        return ("unspecified", probs)
     if ref[0] == "request":
         if lib[0] != "ok":
             prob("request-rejected", f"a request payload was rejected: {lib[1]!r}")
